@@ -15,6 +15,7 @@ mod c12;
 mod c13;
 mod c15;
 mod c16;
+mod c17;
 mod c18;
 mod c19;
 mod c20;
@@ -65,6 +66,8 @@ fn main() {
         ("c15", "run") => c15::run(),
         ("c16", "gen") => c16::gen(seed, thorough),
         ("c16", "run") => c16::run(),
+        ("c17", "gen") => c17::gen(seed, thorough),
+        ("c17", "run") => c17::run(),
         ("c18", "gen") => c18::gen(seed, thorough),
         ("c18", "run") => c18::run(thorough),
         ("c19", "gen") => c19::gen(seed, thorough),
